@@ -42,6 +42,11 @@ func c15Pool(name string) []string {
 	return pool
 }
 
+// c15Fingerprint: spellings on which the ecosystems' parsers and orders differ from one another.
+var c15Fingerprint = []string{"1.0.0", "1.0", "v1.0.0", "1.0.0-dev", "1.0.0-alpha", "1.0.0-beta", "cci.20230101", "1.0.0-rc.1", "1.0.0.rc1", "1.0~rc1", "1.0_rc1", "1.0-r1",
+	"1:1.0-1", "1.0-1", "1!1.0", "1.0.post1", "1.0-SNAPSHOT", "1.0a1", "2024.01.15", "1.0.0-esr", "1.0^git1", "1.0_p1", "1-0", "1.0.0+b", "v1.0.0-0.20200101000000-abcdef123456",
+	"1.0.0-RC1", "dev-master", "1.0.0-1", "1.0.0-x", "1.0.1", "1.0-sp", "1.0.a", "01.0.0", "=1.0.0", "v1", "1"}
+
 type c15Env struct {
 	r    *core.Result
 	srv  *cli.Server
@@ -230,6 +235,37 @@ func c15EcoUnit(name string, tier string) core.Unit {
 				}
 			}
 		}
+		// routing fingerprint: characteristic spellings of all ecosystems, every ordered pair through
+		// `compare`; a name wired to another ecosystem's implementation answers differently on at
+		// least one pair (checked below against every other ecosystem of the library)
+		for _, a := range c15Fingerprint {
+			for _, b := range c15Fingerprint {
+				ok, exact, _ := c15Expect(e, "compare", []string{a, b})
+				r.Add("states", 1)
+				c15Check(x, name, []string{name, "compare", a, b}, ok, exact, nil)
+			}
+		}
+		for _, other := range gen.EcoNames {
+			if other == name {
+				continue
+			}
+			oe := eco.ByName(other)
+			distinct := false
+			for _, a := range c15Fingerprint {
+				for _, b := range c15Fingerprint {
+					ok1, ex1, _ := c15Expect(e, "compare", []string{a, b})
+					ok2, ex2, _ := c15Expect(oe, "compare", []string{a, b})
+					if ok1 != ok2 || ex1 != ex2 {
+						distinct = true
+					}
+				}
+			}
+			if distinct {
+				r.Add("fingerprint_distinguished_pairs", 1)
+			} else {
+				r.Notef("%s and %s answer identically on the routing fingerprint", name, other)
+			}
+		}
 		// argument order of contains: pools where swapping changes the outcome
 		rg, ver := pool[4], pool[1]
 		okA, exA, _ := c15Expect(e, "contains", []string{rg, ver})
@@ -356,7 +392,7 @@ func init() {
 				"distinct_nontrivial":           r.Counters["nontrivial"],
 			}
 		},
-		Rule:        "for each of the 20 Name constants (read from the library packages, not from the CLI's table): commands compare/contains/sort x every argument vector of length 0..3 (sort: thorough 0..4, plus length 5 over 5 strings) over a 14-string pool (3 valid versions, a Compare-equal variant, 2 valid ranges, an invalid string, empty, blank, -1, --, a quoted version, a string with an inner space, one with a newline); 7 unknown command spellings; 'vers contains' over all vectors of length 0..3 over a 16-string pool; 18 near-miss names. Every vector is run through the repository's run() (overlay-built in-process server) and a deterministic 1-in-k stride also as real processes of the unmodified binary. Expected stdout/exit code are computed by calling the library directly. distinct_nontrivial = vectors whose expectation is a success.",
+		Rule:        "for each of the 20 Name constants (read from the library packages, not from the CLI's table): commands compare/contains/sort x every argument vector of length 0..3 (sort: thorough 0..4, plus length 5 over 5 strings) over a 14-string pool (3 valid versions, a Compare-equal variant, 2 valid ranges, an invalid string, empty, blank, -1, --, a quoted version, a string with an inner space, one with a newline); 7 unknown command spellings; 'vers contains' over all vectors of length 0..3 over a 16-string pool; 18 near-miss names. Every vector is run through the repository's run() (overlay-built in-process server) and a deterministic 1-in-k stride also as real processes of the unmodified binary. Expected stdout/exit code are computed by calling the library directly. distinct_nontrivial = vectors whose expectation is a success. Routing fingerprint: every ordered pair over 36 characteristic spellings drawn from all ecosystems through `compare` under every name; the library itself is used to confirm that every two ecosystems differ on at least one such pair (fingerprint_distinguished_pairs).",
 		Assumptions: []string{"sort output is checked as multiset + library order (the order among Compare-equal versions is not fixed by the property)"},
 	})
 }
